@@ -41,6 +41,23 @@ def fix_checksums(buf):
         off += CHUNK
 
 
+def used_chunks(data):
+    n = 0
+    while CHUNK0 + (n + 1) * CHUNK <= len(data) and data[CHUNK0 + n * CHUNK:CHUNK0 + n * CHUNK + 8] == b"ElfChnk\x00":
+        n += 1
+    return n
+
+
+def permute_chunks(data, perm):
+    """the used 64 KiB chunks in another physical order (a wrapped ring-buffer log stores its newest chunk before older
+    ones): chunks are self-contained, so this only changes the order in which records are met -- record ids are then no
+    longer ascending in file order"""
+    n = used_chunks(data)
+    assert sorted(perm) == list(range(n)), (perm, n)
+    chunks = [data[CHUNK0 + k * CHUNK:CHUNK0 + (k + 1) * CHUNK] for k in range(n)]
+    return data[:CHUNK0] + b"".join(chunks[k] for k in perm) + data[CHUNK0 + n * CHUNK:]
+
+
 def ns_to_filetime(ns):
     return ns // 100 + EPOCH_DIFF_100NS
 
